@@ -96,6 +96,11 @@ def tb_fingerprint(exc):
             slf = f.f_locals.get('self')
             if isinstance(slf, qc.EvalNode):
                 owner = type(slf).__name__
+                ops = getattr(slf, 'operands', None)
+                if isinstance(ops, (list, tuple)) and all(isinstance(o, qc.EvalNode) for o in ops):
+                    # the argument types separate an overload that cannot handle its declared operands from another
+                    # defect in the same function (a known finding on min(dict) must not hide one on min(decimal))
+                    owner += '[' + ','.join(getattr(o.dtype, '__name__', str(o.dtype)) for o in ops) + ']'
         tb = tb.tb_next
     return f'{base}|{owner}' if owner else base
 
